@@ -253,7 +253,11 @@ PREFIX_WORDS = ["X", "O", "U"]
 @st.composite
 def indicator_text(draw, words):
     word = draw(st.sampled_from(words))
-    style = draw(st.integers(0, 3))
+    style = draw(st.sampled_from([0, 0, 0, 1, 1, 1, 2, 2, 2, 3, 3, 3, 4]))
+    if style == 4:
+        # the marks are matched case-insensitively by Python's Unicode rules, under which U+017F (long s) is an 's':
+        # 'ſoll' / 'Muſs' are accepted and read as SOLL / MUSS (observed; ref.normalise_indicator upper-cases alike)
+        return word.lower().replace("s", "\u017f") if "s" in word.lower() else word
     if style == 0:
         return word
     if style == 1:
